@@ -1,6 +1,6 @@
 """C12 configuration for ./check (keys: see checks/propcfg.py)."""
 CFG = {
-    "modules": ["VaxisModel.Props.C12"],
+    "modules": ["VaxisModel.Props.C12", "VaxisModel.Witness.F112b"],
     "extractors": ["C07", "C04"],
     "drivers": ["C12"],
     "stateful": True,
